@@ -129,6 +129,7 @@ type jobOutcome struct {
 	results   []proto.RunResult
 	crashed   *proto.RunSpec // the run during which the process died
 	crashText string
+	mark      string // phase of the crashed run recorded last in the journal ("" = none)
 	leftover  []proto.RunSpec
 	watchdog  bool
 }
@@ -195,9 +196,14 @@ func runJob(bin string, specs []proto.RunSpec, timeout time.Duration, extraEnv .
 	}
 	// journal
 	begun, ended, stopped := -1, -1, -1
+	marks := map[string]string{}
 	if jr, err := os.ReadFile(job.Journal); err == nil {
 		for _, l := range strings.Split(string(jr), "\n") {
 			f := strings.Fields(l)
+			if len(f) == 3 && f[0] == "MARK" {
+				marks[f[1]] = f[2]
+				continue
+			}
 			if len(f) != 2 {
 				continue
 			}
@@ -219,6 +225,9 @@ func runJob(bin string, specs []proto.RunSpec, timeout time.Duration, extraEnv .
 		oc.crashed = &sp
 		st, _ := os.ReadFile(base + ".stderr")
 		oc.crashText = string(st)
+		if m := marks[strconv.Itoa(begun)]; m != "-" {
+			oc.mark = m
+		}
 		next = begun + 1
 	} else if werr != nil && stopped < 0 && !oc.watchdog && ended < len(specs)-1 {
 		st, _ := os.ReadFile(base + ".stderr")
@@ -228,6 +237,17 @@ func runJob(bin string, specs []proto.RunSpec, timeout time.Duration, extraEnv .
 		oc.leftover = append(oc.leftover, specs[next:]...)
 	}
 	return oc
+}
+
+// crashViolation describes a worker-process crash inside a run. A crash inside a
+// marked phase belongs to that phase's oracle; otherwise it is a "survive" crash,
+// a violation only of the properties in crashProps.
+func crashViolation(sp *proto.RunSpec, mark, text string) (*proto.Violation, string) {
+	sig, detail := crashSignature(text)
+	if i := strings.Index(mark, "/"); i > 0 {
+		return &proto.Violation{Prop: sp.Prop, Oracle: mark[:i], Sig: sp.Prop + "/" + mark + ":" + sig, Detail: "worker process died inside the marked phase: " + detail}, sig
+	}
+	return &proto.Violation{Prop: sp.Prop, Oracle: "survive", Sig: sp.Prop + "/survive/crash:" + sig, Detail: "worker process died: " + detail}, sig
 }
 
 // crashSignature reduces a Go crash dump to "panic message class @ top library frame".
@@ -437,10 +457,9 @@ func (p *pool) run() {
 					if oc.watchdog {
 						p.watchdogs = append(p.watchdogs, fmt.Sprintf("%s/%s seed=%d", oc.crashed.Scenario, oc.crashed.Stratum, oc.crashed.Seed))
 					} else {
-						sig, detail := crashSignature(oc.crashText)
 						sp := oc.crashed
-						p.crashes = append(p.crashes, proto.RunResult{Prop: sp.Prop, Scenario: sp.Scenario, Stratum: sp.Stratum, Seed: sp.Seed,
-							Viol: &proto.Violation{Prop: sp.Prop, Oracle: "survive", Sig: sp.Prop + "/survive/crash:" + sig, Detail: "worker process died: " + detail}})
+						v, _ := crashViolation(sp, oc.mark, oc.crashText)
+						p.crashes = append(p.crashes, proto.RunResult{Prop: sp.Prop, Scenario: sp.Scenario, Stratum: sp.Stratum, Seed: sp.Seed, Viol: v})
 					}
 				} else if oc.watchdog {
 					p.watchdogs = append(p.watchdogs, "worker killed outside a run")
@@ -462,9 +481,8 @@ func runSingle(bin string, spec proto.RunSpec, timeout time.Duration) (res *prot
 		if oc.watchdog {
 			return nil, "", true
 		}
-		sig, detail := crashSignature(oc.crashText)
-		return &proto.RunResult{Prop: spec.Prop, Scenario: spec.Scenario, Stratum: spec.Stratum, Seed: spec.Seed,
-			Viol: &proto.Violation{Prop: spec.Prop, Oracle: "survive", Sig: spec.Prop + "/survive/crash:" + sig, Detail: "worker process died: " + detail}}, sig, false
+		v, sig := crashViolation(&spec, oc.mark, oc.crashText)
+		return &proto.RunResult{Prop: spec.Prop, Scenario: spec.Scenario, Stratum: spec.Stratum, Seed: spec.Seed, Viol: v}, sig, false
 	}
 	if len(oc.results) == 0 {
 		return nil, "", oc.watchdog
@@ -961,7 +979,7 @@ func doCheck(prop, tier string) int {
 	}
 	for i := range p.crashes {
 		r := &p.crashes[i]
-		if !crashProps[prop] {
+		if !crashProps[prop] && r.Viol.Oracle == "survive" {
 			// a crash is not a violation of this property's statement; it is
 			// reported by C05 (and C10/C02). Here the run cannot be decided.
 			harness = append(harness, proto.RunResult{Prop: prop, Scenario: r.Scenario, Stratum: r.Stratum, Seed: r.Seed, Harness: "library crashed during the run (undecidable here; see C05): " + r.Viol.Sig})
